@@ -17,8 +17,10 @@ def main():
     ap = argparse.ArgumentParser()
     ap.add_argument("--only", default="")
     ap.add_argument("--summary-only", action="store_true")
+    ap.add_argument("--seed", default="1")
+    ap.add_argument("--results", default="RESULTS.json")
     args = ap.parse_args()
-    path = os.path.join(VERIF, "seeded", "RESULTS.json")
+    path = os.path.join(VERIF, "seeded", args.results)
     results = json.load(open(path)) if os.path.exists(path) else {}
     names = sorted(d for d in os.listdir(os.path.join(VERIF, "seeded")) if os.path.isdir(os.path.join(VERIF, "seeded", d)))
     if args.only:
@@ -28,7 +30,8 @@ def main():
             pid = name.split("-")[0]
             d = os.path.join(VERIF, "seeded", name)
             r = subprocess.run([sys.executable, os.path.join(VERIF, "tools", "seeded_eval.py"), os.path.join(d, "patch.diff"),
-                                os.path.join(d, "demo.py"), "--checks", pid, "--skip-suite"], capture_output=True, text=True)
+                                os.path.join(d, "demo.py"), "--checks", pid, "--skip-suite", "--seed", args.seed],
+                               capture_output=True, text=True)
             try:
                 doc = json.loads(r.stdout)
                 c = doc["checks"][pid]
